@@ -15,6 +15,7 @@ CONSTANTS PUs, Nodes, NodeCpus,
           RestrictFlags,   \* flag words tried for restrict
           Objs,            \* number of anchor objects (misc parents, info targets, group_obj sources, distance objects)
           MaxSteps, TwoSlots, NStripes, Stripe, SimLen,
+          Tiny,            \* TRUE: the store-filling calls and restrict take two or three argument combinations each (focused configuration that goes five calls deep)
           Lean,            \* TRUE: fewer argument combinations of the argument-heavy calls (allow, dist_add, group) - quick tier with two topologies
           Ops,             \* the calls this configuration uses (focused configurations explore fewer calls deeper)
           ShapePUs,        \* per distances shape (argument of dist_add): the sequence of PU sets of the objects of the matrix
@@ -65,7 +66,7 @@ DistCut(s, P) == LET sh == LastShape(s, Len(hist)) IN
              ELSE LET alive == Cardinality({i \in DOMAIN ShapePUs[sh] : ShapePUs[sh][i] \cap P # {}}) IN
                   IF alive = Len(ShapePUs[sh]) THEN 0 ELSE IF alive >= 2 THEN 1 ELSE 2
 
-Restrict == \E s \in Slots, f \in RestrictFlags, k \in DOMAIN SetChoices :
+Restrict == \E s \in Slots, f \in (IF Tiny THEN {0} ELSE RestrictFlags), k \in (IF Tiny THEN {x \in DOMAIN SetChoices : x \in {2, 6, 7}} ELSE DOMAIN SetChoices) :
               /\ "restrict" \in Ops
               /\ live[s]
               /\ LET o == Outcome(s, f, k) IN
@@ -88,10 +89,13 @@ Other == \E s \in Slots :
      \/ On("add_info") /\ \E a \in 1..Objs : Step(<<"add_info", s, a, 0, 0>>)
      \/ On("set_subtype") /\ \E a \in 1..Objs, v \in {0, 1} : Step(<<"set_subtype", s, a, v, 0>>)
      \/ On("refresh") /\ Step(<<"refresh", s, 0, 0, 0>>)
-     \/ On("dist_add") /\ \E kind \in (IF Lean THEN {5, 6} ELSE {5, 6, 9, 10, 0, 3, 64}), afl \in (IF Lean THEN {0, 3} ELSE {0, 1, 2, 3, 8}), shape \in (IF Lean THEN {1, 3, 4} ELSE 1..4) :
+     \/ On("dist_add") /\ \E kind \in (IF Tiny THEN {5} ELSE IF Lean THEN {5, 6} ELSE {5, 6, 9, 10, 0, 3, 64}), afl \in (IF Tiny THEN {0} ELSE IF Lean THEN {0, 3} ELSE {0, 1, 2, 3, 8}),
+                              shape \in (IF Tiny THEN {1, 2} ELSE IF Lean THEN {1, 3, 4} ELSE 1..4) :
                            Step(<<"dist_add", s, kind, afl, shape>>)
      \/ On("dist_remove") /\ Step(<<"dist_remove", s, 0, 0, 0>>)
-     \/ On("memattr") /\ \E fl \in {1, 2, 3, 0, 5}, a \in 1..Objs : Step(<<"memattr", s, fl, a, 0>>)
+     \* the k-th structure that hwloc_distances_get() returns is removed through its handle (release_remove)
+     \/ On("dist_remove_one") /\ \E k \in {0, 1} : Step(<<"dist_remove_one", s, k, 0, 0>>)
+     \/ On("memattr") /\ \E fl \in (IF Tiny THEN {5} ELSE {1, 2, 3, 0, 5}), a \in (IF Tiny THEN {5} ELSE 1..Objs) : Step(<<"memattr", s, fl, a, 0>>)
      \/ On("cpukind") /\ \E k \in DOMAIN SetChoices, eff \in {-1, 0, 2}, inf \in {0, 1} : Step(<<"cpukind", s, k, eff, inf>>)
      \* the infos of the k-th CPU kind are edited in place through hwloc_cpukinds_get_info + hwloc_modify_infos: 0 = all removed, 1 = one added
      \/ On("cpukind_info") /\ \E k \in 0..1, mode \in {0, 1} : Step(<<"cpukind_info", s, k, mode, 0>>)
@@ -107,7 +111,20 @@ Destroy == \E s \in Slots : /\ TwoSlots /\ live[0] /\ live[1]      \* either cop
                             /\ Step(<<"destroy", s, 0, 0, 0>>)
                             /\ UNCHANGED <<pus, nodes>>
 
-Next == Restrict \/ Other \/ Dup \/ Destroy
+\* the call just made on one copy is made on the other copy too, with the same arguments: two copies that were observably equal answer
+\* and end up the same (TraceTopo!Twin).  It is not counted as a step and is never mirrored again.
+Mirror == /\ TwoSlots /\ live[0] /\ live[1] /\ hist # <<>>
+          /\ LET op == hist[Len(hist)]  s2 == 1 - op[2]  c == sig[Len(sig)][3] IN
+               /\ op[1] \notin {"dup", "destroy"} /\ c < 1000
+               /\ IF op[1] = "restrict"
+                  THEN LET o == Outcome(s2, op[3], op[4]) IN
+                         /\ pus' = [pus EXCEPT ![s2] = o[2]] /\ nodes' = [nodes EXCEPT ![s2] = o[3]]
+                         /\ hist' = Append(hist, <<"restrict", s2, op[3], op[4], o[1]>>)
+                  ELSE /\ hist' = Append(hist, [op EXCEPT ![2] = s2]) /\ UNCHANGED <<pus, nodes>>
+               /\ sig' = Append(sig, <<op[1], s2, 1000 + (IF c < 0 THEN 999 ELSE c)>>)
+          /\ UNCHANGED <<live, steps>>
+
+Next == Restrict \/ Other \/ Dup \/ Destroy \/ Mirror
 Spec == Init /\ [][Next]_<<pus, nodes, live, steps, hist, sig>>
 \* the view keeps the signature of the history (which call on which slot, in order, with its class): the stores the calls fill (Misc and
 \* Group objects, distances, memory attributes, cpukinds, infos) are not model variables, so two histories that differ in the calls made are
